@@ -466,3 +466,277 @@ Proof.
     pose proof (ordered_values_eq _ _ _ _ _ _ _ _ _ _ Wb Wa Pvb Pva Rb Ra Ev) as Evals.
     eexists. rewrite (Eep (eq_sym Ee)), Eid, Efh, Efc, Ep, Et, Es, Evals. split; reflexivity.
 Qed.
+
+(* ------------------------------------------------------------------ reflexivity of the equality tests *)
+
+Lemma list_eqb_refl {A} (eqb : A -> A -> bool) : (forall x, eqb x x = true) -> forall l, list_eqb eqb l l = true.
+Proof. intros R l. induction l as [|x l IH]; simpl; auto. now rewrite R, IH. Qed.
+
+Lemma piece_eqb_refl p : piece_eqb p p = true.
+Proof. destruct p; simpl; auto; apply String.eqb_refl. Qed.
+
+Lemma tpl_eqb_refl t : tpl_eqb t t = true.
+Proof. apply list_eqb_refl, piece_eqb_refl. Qed.
+
+Lemma kt_eqb_refl x : kt_eqb x x = true.
+Proof. unfold kt_eqb. now rewrite String.eqb_refl, tpl_eqb_refl. Qed.
+
+Lemma kv_eqb_refl x : kv_eqb x x = true.
+Proof. unfold kv_eqb. now rewrite !String.eqb_refl. Qed.
+
+Lemma alist_eqb_refl m : alist_eqb m m = true.
+Proof. apply list_eqb_refl, kv_eqb_refl. Qed.
+
+Lemma auth_eqb_refl a : auth_eqb a a = true.
+Proof. destruct a; simpl; auto; now rewrite !String.eqb_refl. Qed.
+
+Lemma ep_eqb_refl e : ep_eqb e e = true.
+Proof. unfold ep_eqb. now rewrite tpl_eqb_refl, String.eqb_refl, (list_eqb_refl _ kt_eqb_refl), auth_eqb_refl. Qed.
+
+(* ------------------------------------------------------------------ the components determine the fresh evaluation *)
+
+(** two template contexts that agree except, possibly, on the outputs *)
+Definition ctx_agree (c c' : rctx) : Prop :=
+  rc_sub c = rc_sub c' /\ rc_values c = rc_values c' /\ rc_req c = rc_req c' /\ rc_auth c = rc_auth c'.
+
+Lemma render_ext c c' t :
+  ctx_agree c c' -> (uses_outputs t = false \/ rc_outputs c = rc_outputs c') -> render c t = render c' t.
+Proof.
+  intros (Es & Ev & Er & Ea) O. induction t as [|p t IH]; [reflexivity|].
+  simpl. assert (Ep : render_piece c p = render_piece c' p).
+  { destruct p; simpl; try congruence.
+    destruct O as [O|O]; [simpl in O; discriminate | now rewrite O]. }
+  rewrite Ep, IH; auto.
+  destruct O as [O|O]; auto. left. simpl in O. now apply orb_false_iff in O as [_ O].
+Qed.
+
+Lemma render_headers_ext c c' : forall hs acc,
+  ctx_agree c c' ->
+  (existsb (fun kt => uses_outputs (snd kt)) hs = false \/ rc_outputs c = rc_outputs c') ->
+  render_headers c hs acc = render_headers c' hs acc.
+Proof.
+  induction hs as [|[k t] hs IH]; intros acc A O; [reflexivity|].
+  simpl. rewrite (render_ext c c' t A).
+  - destruct (render c' t); auto. apply IH; auto.
+    destruct O as [O|O]; auto. left. simpl in O. now apply orb_false_iff in O as [_ O].
+  - destruct O as [O|O]; auto. left. simpl in O. now apply orb_false_iff in O as [O _].
+Qed.
+
+Lemma mk_request_ext c c' i i' q q' body wf :
+  eff_ep i = eff_ep i' -> ctx_agree c c' ->
+  (ep_uses_outputs (eff_ep i) = false \/ rc_outputs c = rc_outputs c') ->
+  (wf = true -> fwd (i_fwdh i) (q_headers q) = fwd (i_fwdh i') (q_headers q') /\
+                fwd (i_fwdc i) (q_cookies q) = fwd (i_fwdc i') (q_cookies q')) ->
+  mk_request c i q body wf = mk_request c' i' q' body wf.
+Proof.
+  intros Ee A O F. unfold mk_request. rewrite <- Ee.
+  assert (Ou : uses_outputs (e_url (eff_ep i)) = false \/ rc_outputs c = rc_outputs c').
+  { destruct O as [O|O]; auto. left. unfold ep_uses_outputs in O. now apply orb_false_iff in O as [O _]. }
+  assert (Oh : existsb (fun kt => uses_outputs (snd kt)) (e_headers (eff_ep i)) = false \/ rc_outputs c = rc_outputs c').
+  { destruct O as [O|O]; auto. left. unfold ep_uses_outputs in O. now apply orb_false_iff in O as [_ O]. }
+  rewrite (render_ext c c' _ A Ou), (render_headers_ext c c' _ _ A Oh).
+  destruct wf; [destruct (F eq_refl) as [-> ->]|]; reflexivity.
+Qed.
+
+Lemma eff_ep_templated i : (i_kind i = KRemote \/ i_kind i = KCtx \/ i_kind i = KGen) -> eff_ep i = i_ep i.
+Proof. unfold eff_ep. intros [->|[->| ->]]; reflexivity. Qed.
+
+(** what "the subject's JSON determines the subject" means for two requests *)
+Definition json_faithful (a b : step) : Prop :=
+  q_sub_json (st_req a) = q_sub_json (st_req b) -> q_sub_id (st_req a) = q_sub_id (st_req b).
+
+Lemma components_kind s c : components s = Some c -> kc_kind c = i_kind (st_inst s).
+Proof.
+  unfold components. destruct (i_kind (st_inst s)) eqn:K.
+  - intro E. now injection E as <-.
+  - intro E. now injection E as <-.
+  - destruct (rendered (st_inst s) (st_req s)) as [[v p]|]; [|discriminate]. intro E. now injection E as <-.
+  - destruct (rendered (st_inst s) (st_req s)) as [[v p]|]; [|discriminate]. intro E. now injection E as <-.
+Qed.
+
+(** Two look-ups with the same key components are answered alike by a fresh
+    evaluation, outside the guards of C11-F2 (assertions), F3 (expressions), F6
+    (forwarded values, generic authenticator's payload) and F7 (outputs in
+    endpoint templates). *)
+Theorem components_determine_fresh : forall w a b c,
+  components a = Some c -> components b = Some c ->
+  enabled (st_inst a) = true -> enabled (st_inst b) = true ->
+  json_faithful a b ->
+  p_F2 a b = false -> p_F3 a b = false -> p_F6 a b = false -> p_F7 a b = false ->
+  exec_fresh w (st_inst a) (st_req a) = exec_fresh w (st_inst b) (st_req b).
+Proof.
+  intros w a b c Ca Cb Ea Eb J G2 G3 G6 G7.
+  pose proof (components_kind a c Ca) as Ka. pose proof (components_kind b c Cb) as Kb.
+  assert (Kab : i_kind (st_inst b) = i_kind (st_inst a)) by congruence. clear Ka Kb.
+  unfold components in Ca, Cb. unfold exec_fresh, mk_sent, policy_ok.
+  destruct (i_kind (st_inst a)) eqn:Kia; rewrite Kab in *.
+  - (* introspection *)
+    injection Ca as <-. injection Cb as Ee Ec. rewrite Ee, Ec.
+    destruct (remote_answer _ _ _ _) as [|r]; [reflexivity|].
+    assert (Es : i_scopes (st_inst a) = i_scopes (st_inst b)).
+    { unfold p_F2, both, is_kind in G2. rewrite Kia, Kab, Ea, Eb, <- Ee, Ec, String.eqb_refl, ep_eqb_refl in G2.
+      simpl in G2. apply negb_false_iff in G2. now apply strs_eqb_eq. }
+    now rewrite Es.
+  - (* generic authenticator *)
+    injection Ca as <-. injection Cb as Ee Ec.
+    unfold p_F6, both, forwards in G6. rewrite Kia, Kab, Ea, Eb in G6. simpl in G6.
+    apply negb_false_iff in G6. apply andb_true_iff in G6 as [Gf Gp].
+    unfold fwd_eqb in Gf. apply andb_true_iff in Gf as [Gh Gc].
+    apply alist_eqb_eq in Gh, Gc. apply (option_eqb_eq _ tpl_eqb_eq) in Gp.
+    rewrite <- Gp, Ec.
+    set (c := {| rc_sub := None; rc_values := None; rc_outputs := None; rc_req := None;
+                 rc_auth := Some (q_cred (st_req a)) |}).
+    destruct (match i_payload (st_inst a) with Some t => render c t | None => Some "" end) as [body|]; [|reflexivity].
+    rewrite (mk_request_ext c c (st_inst a) (st_inst b) (st_req a) (st_req b) body true (eq_sym Ee)); auto;
+      try (repeat split; fail); try (right; reflexivity).
+  - (* remote authorizer *)
+    destruct (rendered (st_inst a) (st_req a)) as [[va pa]|] eqn:Ra; [|discriminate].
+    destruct (rendered (st_inst b) (st_req b)) as [[vb pb]|] eqn:Rb; [|discriminate].
+    remember (le64 (ttl_val (st_inst a))) as ta eqn:Hta. remember (le64 (ttl_val (st_inst b))) as tb eqn:Htb.
+    injection Ca as <-. injection Cb as Ee Eid Eup Ep Et Es Ev. subst vb pb. clear Hta Htb Et.
+    assert (Esub : q_sub_id (st_req a) = q_sub_id (st_req b)) by (apply J; congruence).
+    assert (Eo : ep_uses_outputs (eff_ep (st_inst b)) = false \/ q_outputs (st_req b) = q_outputs (st_req a)).
+    { unfold p_F7, both, templated in G7. rewrite Kia, Kab, Ea, Eb in G7. simpl in G7.
+      rewrite <- (eff_ep_templated (st_inst a)), <- (eff_ep_templated (st_inst b)), <- Ee in G7; auto.
+      destruct (ep_uses_outputs (eff_ep (st_inst b))); auto. simpl in G7.
+      apply negb_false_iff in G7. right. symmetry. now apply alist_eqb_eq. }
+    rewrite (mk_request_ext _ {| rc_sub := Some (q_sub_id (st_req b)); rc_values := Some va;
+                                 rc_outputs := Some (q_outputs (st_req b)); rc_req := None; rc_auth := None |}
+               (st_inst a) (st_inst b) (st_req a) (st_req b) pa false (eq_sym Ee)).
+    + destruct (mk_request _ _ _ _ _) as [s|]; [|reflexivity].
+      destruct (remote_answer _ _ _ _) as [|r] eqn:RA.
+      * reflexivity.
+      * assert (Ex : i_exprs (st_inst a) = i_exprs (st_inst b)).
+        { unfold p_F3, both, is_kind in G3. rewrite Kia, Kab, Ea, Eb, Ra, Rb in G3. simpl in G3.
+          rewrite alist_eqb_refl, String.eqb_refl, <- Es, String.eqb_refl in G3. simpl in G3.
+          apply negb_false_iff in G3. now apply (list_eqb_eq _ expr_eqb_eq). }
+        now rewrite Ex.
+    + repeat split; simpl; congruence.
+    + rewrite <- Ee. destruct Eo as [Eo|Eo]; [left; exact Eo | right; simpl; congruence].
+    + discriminate.
+  - (* generic contextualizer *)
+    destruct (rendered (st_inst a) (st_req a)) as [[va pa]|] eqn:Ra; [|discriminate].
+    destruct (rendered (st_inst b) (st_req b)) as [[vb pb]|] eqn:Rb; [|discriminate].
+    remember (le64 (ttl_val (st_inst a))) as ta eqn:Hta. remember (le64 (ttl_val (st_inst b))) as tb eqn:Htb.
+    injection Ca as <-. injection Cb as Ee Eid Efh Efc Ep Et Es Ev. subst vb pb. clear Hta Htb Et.
+    assert (Esub : q_sub_id (st_req a) = q_sub_id (st_req b)) by (apply J; congruence).
+    assert (Eo : ep_uses_outputs (eff_ep (st_inst b)) = false \/ q_outputs (st_req b) = q_outputs (st_req a)).
+    { unfold p_F7, both, templated in G7. rewrite Kia, Kab, Ea, Eb in G7. simpl in G7.
+      rewrite <- (eff_ep_templated (st_inst a)), <- (eff_ep_templated (st_inst b)), <- Ee in G7; auto.
+      destruct (ep_uses_outputs (eff_ep (st_inst b))); auto. simpl in G7.
+      apply negb_false_iff in G7. right. symmetry. now apply alist_eqb_eq. }
+    unfold p_F6, both, forwards in G6. rewrite Kia, Kab, Ea, Eb in G6. simpl in G6.
+    apply negb_false_iff in G6. rewrite andb_true_r in G6.
+    unfold fwd_eqb in G6. apply andb_true_iff in G6 as [Gh Gc]. apply alist_eqb_eq in Gh, Gc.
+    rewrite (mk_request_ext _ {| rc_sub := Some (q_sub_id (st_req b)); rc_values := Some va;
+                                 rc_outputs := Some (q_outputs (st_req b)); rc_req := None; rc_auth := None |}
+               (st_inst a) (st_inst b) (st_req a) (st_req b) pa true (eq_sym Ee)).
+    + destruct (mk_request _ _ _ _ _) as [s|]; [|reflexivity].
+      destruct (remote_answer _ _ _ _) as [|r] eqn:RA.
+      * reflexivity.
+      * reflexivity.
+    + repeat split; simpl; congruence.
+    + rewrite <- Ee. destruct Eo as [Eo|Eo]; [left; exact Eo | right; simpl; congruence].
+    + auto.
+Qed.
+
+(* ------------------------------------------------------------------ cache transparency outside the guards *)
+
+Lemma exists_pair_false {A} (f : A -> A -> bool) : forall l a b,
+  exists_pair f l = false -> In a l -> In b l -> a = b \/ (f a b = false /\ f b a = false).
+Proof.
+  induction l as [|x l IH]; intros a b E Ia Ib; [destruct Ia|].
+  simpl in E. apply orb_false_iff in E as [Ex El].
+  assert (Hx : forall y, In y l -> f x y = false /\ f y x = false).
+  { intros y Iy.
+    assert (N : f x y || f y x = false).
+    { destruct (f x y || f y x) eqn:F; auto.
+      assert (T : existsb (fun y0 => f x y0 || f y0 x) l = true) by (apply existsb_exists; eauto).
+      congruence. }
+    now apply orb_false_iff in N. }
+  destruct Ia as [<-|Ia], Ib as [<-|Ib].
+  - left; reflexivity.
+  - right. now apply Hx.
+  - right. destruct (Hx a Ia). auto.
+  - now apply IH.
+Qed.
+
+(** the inputs the theorems are about: maps as sorted lists, templates whose text
+    can be read back, iteration orders that are permutations, and a subject JSON
+    that determines the subject *)
+Definition wf_history (h : list step) : Prop :=
+  (forall s, In s h -> wf_instb (st_inst s) = true /\ orders_valid s) /\
+  (forall a b, In a h -> In b h -> json_faithful a b).
+
+Lemma pair_guards_compatible H w a b k r :
+  injective H ->
+  wf_instb (st_inst a) = true -> wf_instb (st_inst b) = true -> orders_valid a -> orders_valid b ->
+  json_faithful a b ->
+  p_F2 a b = false -> p_F3 a b = false -> p_F4 H a b = false -> p_F6 a b = false -> p_F7 a b = false ->
+  key_of H a = Some k -> key_of H b = Some k -> fresh_of w a = OAllow r -> fresh_of w b = OAllow r.
+Proof.
+  intros Hinj Wa Wb Oa Ob J G2 G3 G4 G6 G7 Ka Kb Fa.
+  destruct (key_injective H a b k Hinj Wa Wb Oa Ob Ka Kb G4) as (c & Ca & Cb).
+  destruct (key_of_some H a k Ka) as (Ea & _). destruct (key_of_some H b k Kb) as (Eb & _).
+  unfold fresh_of in *.
+  now rewrite <- (components_determine_fresh w a b c Ca Cb Ea Eb J G2 G3 G6 G7).
+Qed.
+
+(** Cache transparency: for a collision-free SHA-256 and every history of
+    look-ups (any mechanism instances, requests and iteration orders) on which
+    none of the guards of C11-F2, F3, F4, F6, F7 fires, every outcome with the
+    cache equals the outcome of a fresh evaluation. *)
+Theorem cache_transparent : forall H w h,
+  injective H -> wf_history h ->
+  g_F2 h = false -> g_F3 h = false -> g_F4 H h = false -> g_F6 h = false -> g_F7 h = false ->
+  map sr_out (run_cached H w [] h) = map fst (run_fresh w h).
+Proof.
+  intros H w h Hinj [Wf Js] G2 G3 G4 G6 G7. apply cache_transparent_steps.
+  intros a b k r Ia Ib Ka Kb Fa.
+  destruct (exists_pair_false _ h a b G2 Ia Ib) as [->|[P2 _]]; [exact Fa|].
+  destruct (exists_pair_false _ h a b G3 Ia Ib) as [->|[P3 _]]; [exact Fa|].
+  destruct (exists_pair_false _ h a b G4 Ia Ib) as [->|[P4 _]]; [exact Fa|].
+  destruct (exists_pair_false _ h a b G6 Ia Ib) as [->|[P6 _]]; [exact Fa|].
+  destruct (exists_pair_false _ h a b G7 Ia Ib) as [->|[P7 _]]; [exact Fa|].
+  destruct (Wf a Ia) as [Wa Oa]. destruct (Wf b Ib) as [Wb Ob].
+  eapply (pair_guards_compatible H w a b k r); eauto.
+Qed.
+
+(* ------------------------------------------------------------------ the hypotheses are satisfiable *)
+
+Definition w_ok : inst :=
+  {| i_kind := KRemote; i_id := "ok";
+     i_ep := {| e_url := [PLit "http://opa/r/authz"]; e_method := "";
+                e_headers := [("X-A", [PValue "v1"])]; e_auth := ANone |};
+     i_fwdh := []; i_fwdc := []; i_up := []; i_payload := Some [PLit "p="; PSubjectID; PLit "|"; PValue "v1"];
+     i_values := [("v1", [PReqHeader "X-V1"])]; i_ttl := Some five_min; i_scopes := []; i_exprs := [] |}.
+
+Definition ok_history : list step :=
+  [mk_step w_ok (q_sub "alice" [("X-V1", "h1")] []) ["X-A"] ["v1"];
+   mk_step w_ok (q_sub "bobby" [("X-V1", "h1")] []) ["X-A"] ["v1"];
+   mk_step w_ok (q_sub "alice" [("X-V1", "h1")] []) ["X-A"] ["v1"];
+   mk_step w_ok (q_sub "alice" [("X-V1", "h2")] []) ["X-A"] ["v1"]].
+
+(** a history with four look-ups of a remote authorizer (two subjects, two
+    values, one repeated request) satisfies all hypotheses of [cache_transparent]
+    and of [identical_requests_hit] (its third request repeats the first) *)
+Theorem nonvacuous :
+  wf_history ok_history /\
+  g_F1 ok_history (Some 0) = false /\ g_F2 ok_history = false /\ g_F3 ok_history = false /\
+  (forall H, (forall x, String.length (H x) = 32) -> g_F4 H ok_history = false) /\
+  g_F6 ok_history = false /\ g_F7 ok_history = false /\
+  (exists a b, nth_error ok_history 0 = Some a /\ nth_error ok_history 2 = Some b /\ same_request a b = true /\
+               enabled (st_inst a) = true /\ order_free (st_inst a) = true /\
+               exists r, fresh_of w_world a = OAllow r).
+Proof.
+  splits; try reflexivity.
+  - split.
+    + intros s I. split.
+      * repeat (destruct I as [<-|I]; [reflexivity|]). destruct I.
+      * repeat (destruct I as [<-|I]; [split; simpl; apply Permutation_refl|]). destruct I.
+    + intros a b Ia Ib.
+      repeat (destruct Ia as [<-|Ia]; [repeat (destruct Ib as [<-|Ib]; [intro E; try reflexivity; discriminate E|]); destruct Ib|]).
+      destruct Ia.
+  - intros H L. cbv -[String.length Nat.eqb Nat.leb negb orb andb]. rewrite !L. reflexivity.
+  - do 2 eexists. splits; try reflexivity. eexists. reflexivity.
+Qed.
